@@ -537,16 +537,26 @@ func runRecv(in recvIn) Sx {
 	async := canonAsync(lg.async, in.completeItems())
 	syncLog := lg.sync_
 	if in.Component {
-		// handler calls first (their order is what the property fixes), then the loop's other actions, in order
-		var routes, others []Sx
+		// handler calls first (their order is what the property fixes), then the loop's other actions counted by
+		// kind: neither their interleaving with the handler calls nor their order among themselves is fixed
+		var routes []Sx
+		counts := map[int64]int{}
 		for _, e := range syncLog {
 			if len(e.L) > 0 && e.L[0].K == "z" && e.L[0].Z == 0 {
 				routes = append(routes, e)
-			} else {
-				others = append(others, e)
+			} else if len(e.L) > 0 && e.L[0].K == "z" {
+				counts[e.L[0].Z]++
 			}
 		}
-		syncLog = append(routes, others...)
+		syncLog = routes
+		for t := int64(2); t <= 9; t++ {
+			syncLog = append(syncLog, L(Z(t), Zi(counts[t])))
+		}
+		for t, n := range counts {
+			if t < 2 || t > 9 { // anything unexpected (e.g. 90: loop returned without closing quit) stays visible
+				syncLog = append(syncLog, L(Z(t), Zi(n)))
+			}
+		}
 	}
 	return L(LS(syncLog), LS(async), Zi(leaked))
 }
